@@ -38,6 +38,7 @@ var fieldPkgs = map[string]bool{".": true, "hamt": true, "file": true, "iter": t
 type report struct {
 	Files            map[string]int `json:"rewrites_per_file"`
 	FieldRewrites    int            `json:"field_rewrites"`
+	MapFieldRewrites int            `json:"map_field_rewrites"`
 	GlobalRewrites   int            `json:"package_var_rewrites"`
 	MapRanges        []string       `json:"map_ranges"`
 	SyncImports      []string       `json:"sync_imports_rewritten"`
@@ -305,6 +306,16 @@ func rewriteFile(fset *token.FileSet, f *ast.File, info *types.Info, doFields bo
 			if writes[se] {
 				fn = "W"
 			}
+			// map-typed fields: the map object is a location of its own (two
+			// structs may hold the same map), reported in addition to the slot
+			if _, isMap := sel.Type().Underlying().(*types.Map); isMap {
+				if !writes[se] {
+					fn = "RMap"
+				} else if elemWrites[se] {
+					fn = "WMap"
+				}
+				rep.MapFieldRewrites++
+			}
 			plan[se] = fn + "|" + site
 			return true
 		})
@@ -336,8 +347,8 @@ func rewriteFile(fset *token.FileSet, f *ast.File, info *types.Info, doFields bo
 		count++
 		rep.FieldRewrites++
 		call := &ast.CallExpr{
-			Fun:  &ast.SelectorExpr{X: ast.NewIdent("verifrt"), Sel: ast.NewIdent(p[:1])},
-			Args: []ast.Expr{&ast.UnaryExpr{Op: token.AND, X: se}, &ast.BasicLit{Kind: token.STRING, Value: strconv.Quote(p[2:])}},
+			Fun:  &ast.SelectorExpr{X: ast.NewIdent("verifrt"), Sel: ast.NewIdent(p[:strings.Index(p, "|")])},
+			Args: []ast.Expr{&ast.UnaryExpr{Op: token.AND, X: se}, &ast.BasicLit{Kind: token.STRING, Value: strconv.Quote(p[strings.Index(p, "|")+1:])}},
 		}
 		return &ast.ParenExpr{X: &ast.StarExpr{X: call}}
 	}
@@ -400,11 +411,19 @@ func rewriteFile(fset *token.FileSet, f *ast.File, info *types.Info, doFields bo
 	return count
 }
 
+// elemWrites: selectors written THROUGH an index expression (m[k] = v,
+// delete(m, k), s[i]++): the field slot is only read, what it refers to is
+// written.
+var elemWrites = map[*ast.SelectorExpr]bool{}
+
 func markWrite(e ast.Expr, writes map[*ast.SelectorExpr]bool) {
 	switch x := e.(type) {
 	case *ast.SelectorExpr:
 		writes[x] = true
 	case *ast.IndexExpr:
+		if se, ok := x.X.(*ast.SelectorExpr); ok {
+			elemWrites[se] = true
+		}
 		markWrite(x.X, writes)
 	case *ast.ParenExpr:
 		markWrite(x.X, writes)
